@@ -913,6 +913,7 @@ func run(c *lib.Ctx) {
 	nchunks := (len(specs) + chunk - 1) / chunk
 	var mu sync.Mutex
 	counts := map[string]int{}
+	observations := map[string]bool{}
 	c.Par(nchunks, func(ci int) {
 		r := newReal()
 		local := map[string]int{}
@@ -929,7 +930,7 @@ func run(c *lib.Ctx) {
 				if strings.Contains(out, "(") || strings.Contains(out, "s") {
 					nt++
 				}
-				c.Distinct(out)
+				local["obs:"+out]++
 			}
 			if c.Stopped() {
 				break
@@ -939,7 +940,11 @@ func run(c *lib.Ctx) {
 		c.Nontrivial(nt)
 		mu.Lock()
 		for k, v := range local {
-			counts[k] += v
+			if strings.HasPrefix(k, "obs:") {
+				observations[k] = true
+			} else {
+				counts[k] += v
+			}
 		}
 		mu.Unlock()
 		if ci%97 == 0 {
@@ -949,6 +954,7 @@ func run(c *lib.Ctx) {
 		}
 	})
 	c.Set("outcomes", counts)
+	c.Set("distinct_observations", len(observations))
 }
 
 func replay(c *lib.Ctx, raw json.RawMessage) {
@@ -966,7 +972,7 @@ func main() {
 		Level: "exploration",
 		Rule: "every program of the block grammar (nesting shape x role of x and y per scope x call pattern x ending per block) compiled and run on the real interpreter, " +
 			"observation (read log, call results, exceptions, escaped block calls) compared with the environment-passing reference interpreter; " +
-			"evaluations = programs; programs are distinct by construction, non-trivial when a block ran or a variable was observed; distinct observations are also counted",
+			"evaluations = programs; programs are distinct by construction, non-trivial when a block ran or a variable was observed; the number of distinct observations is reported separately",
 		Assumptions: []string{
 			"interpretation fixed in DESIGN.md: a binding used by more than one scope has one cell per call of the outermost function; a binding used by one scope is private to each call",
 			"`return` inside a block that is called after its function returned is excluded (not defined by the model)",
